@@ -21,6 +21,7 @@ pub fn profile(name: &str) -> Option<GenFn> {
         "broker" => genp::broker,
         "burst" => genp::burst,
         "svckeep" => genp::svckeep,
+        "mix" => genp::mix,
         "svcfaults" => genp::svcfaults,
         _ => return None,
     })
